@@ -114,6 +114,11 @@ func PanicKey(res *Result) string {
 	return fmt.Sprintf("panic: %v @ %s", res.Panic, site)
 }
 
+// shardLevel: executions with at most shardLevel deviations from the default schedule are run by every worker (and
+// counted by worker 0 only); the subtrees below them are dealt out round-robin. With 1, a worker repeats only the
+// O(points) executions of levels 0 and 1.
+const shardLevel = 1
+
 func sigs(r *Result) []string {
 	s := make([]string, len(r.Points))
 	for i := range r.Points {
@@ -134,7 +139,7 @@ func (x *Explorer) explore(prefix []int, expect []string, level int) {
 	if x.HarnessErr != "" {
 		return
 	}
-	counted := x.Shards <= 1 || level > 2 || x.Shard == 0
+	counted := x.Shards <= 1 || level > shardLevel || x.Shard == 0
 	if counted {
 		x.Executions++
 		x.ByPreempt[res.Preempts]++
@@ -155,7 +160,7 @@ func (x *Explorer) explore(prefix []int, expect []string, level int) {
 				if cost > x.Bound {
 					break
 				}
-				if level == 2 && x.Shards > 1 {
+				if level == shardLevel && x.Shards > 1 {
 					x.subtree++
 					if x.subtree%x.Shards != x.Shard {
 						continue
